@@ -192,7 +192,7 @@ def tasks(tier, seed):
     S0 = {"X": ["a", "b", "c"]}
     def t(cls, slates, N, **kw):
         p = {"cls": cls, "slates": slates, "N": N}
-        p.update({k: v for k, v in kw.items() if k in ("by_bloc", "method", "ballot_length", "num_votes", "symbolic", "zero_support", "bloc_voter_prop")})
+        p.update({k: v for k, v in kw.items() if k in ("by_bloc", "method", "ballot_length", "num_votes", "symbolic", "zero_support", "bloc_voter_prop", "from_params")})
         d = {"harness": "c14.generate", "params": p, "sig_keys": ["cls", "method"], "name": f"{cls} {kw.get('method', '')} N={N} slates={ {k: len(v) for k, v in slates.items()} } {kw.get('by_bloc', False)}",
              "xval_stride": kw.get("xval_stride", 7), "weight": kw.get("weight", 5)}
         for k in ("split", "canary", "stop_on_violation"):
@@ -215,6 +215,9 @@ def tasks(tier, seed):
         out.append(t("AlternatingCrossover", S1, N, by_bloc=True, split=4, weight=30))
         out.append(t("CambridgeSampler", S1, N, by_bloc=True, split=4, weight=30))
         out.append(t("OneDimSpatial", {"X": ["a", "b", "c"] if N == 1 else ["a", "b"]}, N))
+    out.append(t("name_PlackettLuce", S1, 1, by_bloc=True, from_params=True, split=3, weight=20))
+    out.append(t("slate_PlackettLuce", S1, 1, by_bloc=True, from_params=True, split=4, weight=30))
+    out.append(t("slate_PlackettLuce", {"X": ["x0", "x1"], "Y": ["y0"], "Z": ["z0"]}, 1, by_bloc=False, split=5, weight=40))
     if not q:
         for cls in ("name_PlackettLuce", "slate_PlackettLuce", "slate_BradleyTerry", "AlternatingCrossover", "name_BradleyTerry"):
             out.append(t(cls, S2, 1, by_bloc=True, split=6, weight=60))
